@@ -197,11 +197,12 @@ def checkC02 (h : History) (obs : List RunObs) : Option String :=
       let badApply := (List.range o.muts.length).findSome? fun i =>
         match o.muts[i]? with
         | some m =>
-          -- writes over an existing object: PATCH/CREATE of the apply task, and any UPDATE (the only legitimate one removes the
-          -- annotation of an object this inventory owns).  The CREATE that `InvAddTask` sends for the inventory's namespace is
-          -- exempt: on an existing namespace it is answered AlreadyExists and changes nothing.
-          if (m.verb = "patch" || m.verb = "create" || m.verb = "update") && !isInvReq m && !m.dry &&
-             !(m.id = nsInvId && m.verb = "create") then
+          -- writes over an existing object: PATCH/CREATE of the apply task, and an UPDATE of an object of the apply set or of the
+          -- inventory's namespace (the only UPDATE the library sends to other objects removes the owning-inventory annotation of a
+          -- spared prune candidate, which the property asks for whatever the owner).  The CREATE that `InvAddTask` sends for the
+          -- inventory's namespace is exempt: on an existing namespace it is answered AlreadyExists and changes nothing.
+          if (m.verb = "patch" || m.verb = "create" || (m.verb = "update" && (m.id = nsInvId || m.id ∈ applySet))) &&
+             !isInvReq m && !m.dry && !(m.id = nsInvId && m.verb = "create") then
             let before := if i = 0 then s0 else (o.muts[i - 1]?.map (·.snap)).getD s0
             match snapFind before m.id with
             | some live => if canApply live.owner r.opts.policy then none
